@@ -107,7 +107,7 @@ func models(tier string) []*modelRun {
 		{name: "ascode.peek", workers: 2, expect: "OnlyOwner", what: "removeState as coded (other.HasMessage)"},
 		{name: "ascode.caps", workers: 2, expect: "LockOrder", what: "handleCapability as coded"},
 		{name: "ascode.ctx", workers: 2, expect: "deadlock", what: "Session.done as coded: Serve context cancelled, then Close"},
-		{name: "bug.removeStateHoldsLock.order", workers: 2, expect: "LockOrder", what: "seeded: removeState keeps statesLock over db.Write and state.Close (lock hierarchy)"},
+		{name: "bug.removeStateHoldsLock.order", workers: 2, expect: "LockOrderCode", what: "seeded: removeState keeps statesLock over db.Write and state.Close (lock hierarchy)"},
 		{name: "bug.closeNoStatesWait", workers: 2, expect: "DbClosedMeansNoStates", what: "seeded: user.close forgets statesWG.Wait"},
 		{name: "bug.doneNoRelease", workers: 2, expect: "deadlock", what: "seeded: Session.done does not release the state"},
 		{name: "bug.idleNotStopped", workers: 2, expect: "deadlock", what: "seeded: IDLE sender not stopped"},
@@ -509,7 +509,7 @@ func run(r *ev.Run, tier, replay string) {
 	r.Set("exhaustive", true)
 	r.Set("rule", "states/transitions = sum over the exhaustive TLC runs of GluonLocks that must finish cleanly (intended design; the as-code and seeded configurations are listed under expected_violations with the violation TLC reports); "+
 		"one evaluation = one client session of a stress round on the real server, distinct by (command script, way of leaving, order of the application's RemoveUser/Close calls); "+
-		"traces_validated_against_impl = recordings of whole rounds (hook events in the order of a global counter) that TLC accepted as behaviours of GluonLocks with the switches of the pinned code and on which it evaluated LockOrder, OnlyOwner, StatesCounted, NoUseAfterDbClose, DbClosedMeansNoStates")
+		"traces_validated_against_impl = recordings of whole rounds (hook events in the order of a global counter) that TLC accepted as behaviours of GluonLocks with the switches of the pinned code and on which it evaluated LockOrderCode, OnlyOwner, StatesCounted, NoUseAfterDbClose, DbClosedMeansNoStates")
 	r.Assumptions = []string{
 		"GluonLocks: writes to a connection never block (a client that stops reading without disconnecting is outside the model); errors of the database or the connector are not modelled",
 		"bounded model: the environment's first moves are made in Init (Eager) - the goroutine consuming each may do so arbitrarily late; multi-session configurations collapse single-lock critical sections without other shared operations into one step (Lipton reduction); the one-session configurations keep every step separate",
